@@ -953,3 +953,87 @@ M('C20','no-sort-after-append','app/daemon/daemon.go','''	sort.Slice(d.shutdownO
 	})
 ''','''	_ = sort.Slice
 ''','order/sorted-descending')
+
+# ---------------- C12
+M('C12','walker-pushfront-return','ds/walker/walker.go','''			continue
+		}
+
+		w.stack.PushFront(nextElement)''','''			return w
+		}
+
+		w.stack.PushFront(nextElement)''','bulk/no-early-exit ds/walker.Walker.PushFront')
+M('C12','timeheap-clear-keeps-total','ds/timeheap/timeheap.go','	h.total = 0\n}','}','pair/heap-total ds/timeheap.TimeHeap.Clear')
+M('C12','timeheap-add-no-total','ds/timeheap/timeheap.go','	h.total += count\n','	_ = count\n','pair/heap-total ds/timeheap.TimeHeap.Add')
+M('C12','submgr-limit-no-undo','web/subscriptionmanager/subscription_manager.go','''				subscribedTopics.Delete(topic)
+
+				// cleanup the client''','''				// cleanup the client''','pair/client-global-count web/subscriptionmanager.SubscriptionManager.Subscribe')
+M('C12','submgr-trigger-under-lock','web/subscriptionmanager/subscription_manager.go','''func (s *SubscriptionManager[C, T]) Disconnect(clientID C) bool {
+	// cleanup the client
+	if wasConnected, removedTopics, unsubscribedTopics := s.cleanupClient(clientID); wasConnected {''','''func (s *SubscriptionManager[C, T]) Disconnect(clientID C) bool {
+	s.Lock()
+	defer s.Unlock()
+	if wasConnected, removedTopics, unsubscribedTopics := s.cleanupClientWithoutLocking(clientID); wasConnected {''','lock/no-callback-under-lock')
+M('C12','submgr-topicssize-nolock','web/subscriptionmanager/subscription_manager.go','''func (s *SubscriptionManager[C, T]) TopicsSize() int {
+	s.RLock()
+	defer s.RUnlock()
+''','''func (s *SubscriptionManager[C, T]) TopicsSize() int {
+''','lock/guarded-by SubscriptionManager.topics in web/subscriptionmanager.SubscriptionManager.TopicsSize')
+M('C12','queue-no-modulo','ds/queue/queue.go','''	queue.ringBuffer[queue.write] = element
+	queue.write = (queue.write + 1) % queue.capacity
+	queue.size++
+
+	return true''','''	queue.ringBuffer[queue.write] = element
+	queue.write = queue.write + 1
+	queue.size++
+
+	return true''','pair/ring-cursor ds/queue.Queue.Offer')
+M('C12','queue-offer-overwrites','ds/queue/queue.go','''	if queue.size == queue.capacity {
+		return false
+	}
+''','''	if queue.size > queue.capacity {
+		return false
+	}
+''','pair/ring-cursor ds/queue.Queue.Offer bounded')
+M('C12','ringbuffer-size-unbounded','ds/ringbuffer/ringbuffer.go','''	if r.size < r.capacity {
+		r.size = r.size + 1
+	}''','''	r.size = r.size + 2 - 1''','pair/ring-cursor')
+M('C12','randommap-delete-no-backindex','ds/randommap/random_map.go','			movedEntry.keyIndex = oldKeyIndex\n','			_ = movedEntry\n','pair/randommap ds/randommap.RandomMap.Delete')
+M('C12','randommap-get-nolock','ds/randommap/random_map.go','''func (r *RandomMap[K, V]) Has(key K) bool {
+	r.mutex.RLock()
+	defer r.mutex.RUnlock()
+''','''func (r *RandomMap[K, V]) Has(key K) bool {
+''','lock/guarded-by RandomMap.rawMap in ds/randommap.RandomMap.Has')
+M('C12','bytesfilter-no-evict','ds/bytesfilter/bytesfilter.go','''		b.knownIdentifiers.Delete(b.identifiers[0])
+''','','pair/bytesfilter')
+M('C12','pq-popuntil-exclusive','ds/priorityqueue/priorityqueue.go','p.heap[0].Key.CompareTo(priority) <= 0','p.heap[0].Key.CompareTo(priority) < 0','cmp/direction ds/priorityqueue.PriorityQueue.PopUntil')
+M('C12','pq-remove-unguarded','ds/priorityqueue/priorityqueue.go','''		if heapElement.Index() != -1 {
+			heap.Remove(&p.heap, heapElement.Index())
+		}''','''		heap.Remove(&p.heap, heapElement.Index())''','pair/removal-handle')
+M('C12','pq-peek-nolock','ds/priorityqueue/priorityqueue.go','''func (p *PriorityQueue[Element, Priority]) Peek() (element Element, exists bool) {
+	p.mutex.RLock()
+	defer p.mutex.RUnlock()
+''','''func (p *PriorityQueue[Element, Priority]) Peek() (element Element, exists bool) {
+''','lock/guarded-by PriorityQueue.heap in ds/priorityqueue.PriorityQueue.Peek')
+M('C12','time-descending-flipped','runtime/timed/priority_queue.go','''	case time.Time(t).Before(time.Time(other)):
+		return 1
+	case time.Time(t).After(time.Time(other)):
+		return -1''','''	case time.Time(t).Before(time.Time(other)):
+		return -1
+	case time.Time(t).After(time.Time(other)):
+		return 1''','cmp/direction runtime/timed.timeDescending.CompareTo')
+M('C12','onchangemap-delete-no-callback','ds/onchangemap/onchangemap.go','''	r.m.Delete(id.Key())
+
+	return r.executeItemCallback(r.itemDeletedCallback, item)''','''	r.m.Delete(id.Key())
+	_ = item
+
+	return nil''','pair/change-callback ds/onchangemap.OnChangeMap.Delete')
+M('C12','indexedstorage-get-nolock','core/memstorage/indexedstorage.go','''func (e *IndexedStorage[IndexType, K, V]) Evict(index IndexType) (evictedStorage *shrinkingmap.ShrinkingMap[K, V]) {
+	e.mutex.Lock()
+	defer e.mutex.Unlock()
+''','''func (e *IndexedStorage[IndexType, K, V]) Evict(index IndexType) (evictedStorage *shrinkingmap.ShrinkingMap[K, V]) {
+''','lock/guarded-by IndexedStorage.cache in core/memstorage.IndexedStorage.Evict')
+M('C12','stack-pop-rlock','ds/stack/threadsafe_stack.go','''func (s *threadSafeStack[T]) Pop() (value T, exists bool) {
+	s.mutex.Lock()
+	defer s.mutex.Unlock()''','''func (s *threadSafeStack[T]) Pop() (value T, exists bool) {
+	s.mutex.RLock()
+	defer s.mutex.RUnlock()''','lock/guarded-by threadSafeStack.stack in ds/stack.threadSafeStack.Pop')
